@@ -42,7 +42,7 @@ def _tasks():
         import time as _time
 
         with open(side, "a") as f:
-            f.write("%d\n" % _os.getpid())
+            f.write("%d %d\n" % (_os.getpid(), x))
         if chdir:
             _os.chdir(chdir)        # user code that moves the process and does not come back
         if delay:
@@ -142,8 +142,9 @@ def child_main():
 
 # ------------------------------------------------------------------ parent side
 class Child:
-    def __init__(self, idx, workdir, cache_root, submissions, rules, trace, repo=None, home=None):
+    def __init__(self, idx, workdir, cache_root, submissions, rules, trace, repo=None, home=None, track=False):
         self.idx = idx
+        self.kids = set()
         self.cfg_path = os.path.join(workdir, "cfg%d.json" % idx)
         self.plan_path = os.path.join(workdir, "plan%d.json" % idx)
         self.report_path = os.path.join(workdir, "report%d.json" % idx)
@@ -157,10 +158,30 @@ class Child:
         repo = repo or os.environ.get("VERIF_REPO", "/repo")
         env.update(PYTHONPATH=VERIF + ":" + repo, NIPYPE_PYDRA_VERIF="1", VERIF_TRACE=trace,
                    VERIF_PLAN=self.plan_path, PYTHONHASHSEED="0", NO_ET="1", PYTHONDONTWRITEBYTECODE="1")
+        # own session: the whole tree (cf worker pool) can be removed at the end; output to a file, because
+        # orphaned pool processes would keep a pipe open
+        self.out_path = os.path.join(workdir, "out%d.txt" % idx)
+        self._out = open(self.out_path, "wb")
         self.proc = subprocess.Popen([PY, "-c", "from harness.lib import procs; procs.child_main()", self.cfg_path],
-                                     cwd=self.home, env=env, stdout=subprocess.PIPE, stderr=subprocess.STDOUT)
+                                     cwd=self.home, env=env, stdout=self._out, stderr=subprocess.STDOUT,
+                                     start_new_session=True)
         self.pid = self.proc.pid
         self.output = None
+        if track:
+            import threading
+            threading.Thread(target=self._watch, daemon=True).start()
+
+    def _watch(self):
+        """pids of the processes this child starts (cf worker pool): their trace lines belong to this submitter"""
+        while self.proc.poll() is None:
+            for pid in [self.pid] + list(self.kids):
+                try:
+                    for t in os.listdir("/proc/%d/task" % pid):
+                        with open("/proc/%d/task/%s/children" % (pid, t)) as f:
+                            self.kids.update(int(x) for x in f.read().split())
+                except (OSError, ValueError):
+                    pass
+            time.sleep(0.03)
 
     def poll(self):
         return self.proc.poll()
@@ -168,12 +189,25 @@ class Child:
     def finish(self, timeout):
         """Wait for the exit; returns the return code, or None (and kills) on a hang."""
         try:
-            self.output = self.proc.communicate(timeout=timeout)[0].decode("utf-8", "replace")
-            return self.proc.returncode
+            rc = self.proc.wait(timeout=timeout)
         except subprocess.TimeoutExpired:
-            self.proc.kill()
-            self.output = self.proc.communicate()[0].decode("utf-8", "replace")
-            return None
+            self.kill_tree()
+            self.proc.wait()
+            rc = None
+        self._out.close()
+        try:
+            with open(self.out_path, "rb") as f:
+                self.output = f.read().decode("utf-8", "replace")
+        except OSError:
+            self.output = ""
+        return rc
+
+    def kill_tree(self):
+        import signal
+        try:
+            os.killpg(self.pid, signal.SIGKILL)
+        except (OSError, ProcessLookupError):
+            pass
 
     def report(self):
         try:
@@ -312,13 +346,20 @@ def observe_cache(cache_root, key):
     }
 
 
-def events_for(trace, children, key):
+TERMINAL = ("job.post_run_done", "job.cache_hit", "drv.returned", "drv.raised")
+
+
+def events_for(trace, children, key, plain=False):
     """Translate the recorded lines that concern checksum `key` into model events.
 
     children: {os pid: dict(idx=model pid, subs=[submission cfgs], inject=(label, nth) | None,
                             crashed=bool, crash_file_status=int|None)}
     Environment events are inserted from what the harness itself arranged (failing body, raising hook,
     injected exception, kill) -- never guessed from the trace.
+    plain=True: `key` is a node job of a submitted workflow: none of the arranged events concerns it except a kill;
+    its runs have no caller line (drv.*), so the caller's read is added when the same submitter runs it again.
+    For workflows (sub cfg `_infer_body_raise`) "the body raised" is read off the trace: the body of a workflow
+    fails exactly when one of its node jobs was made to fail / was killed.
     """
     ev = []
     sub_no = {}
@@ -327,16 +368,20 @@ def events_for(trace, children, key):
     pending_body = {}
     for pid, _tid, label, k in trace:
         ch = children.get(pid)
-        if ch is None or (k not in ("-", key)):
+        if ch is None or (k not in ("-", key)) or (plain and k == "-"):
             continue
         i = ch["idx"]
         if label == "job.pre_run_done":
             sub_no[i] = sub_no.get(i, -1) + 1
+            if plain and last_label.get(i) is not None:
+                ev.append((i, "AReturned"))
         sc = ch["subs"][min(sub_no.get(i, 0), len(ch["subs"]) - 1)]
+        if plain:
+            sc = {"_infer_body_raise": True}
         if pending_body.pop(i, False):
             if sc.get("chdir"):
                 ev.append((i, "AChdir"))          # the body ran and moved the process
-            if label == "error.before" and sc.get("_body_raises"):
+            if label == "error.before" and (sc.get("_body_raises") or sc.get("_infer_body_raise")):
                 ev.append((i, "ABodyRaise"))
         if label == "job.pre_run_done":
             ev.append((i, "(APreRun %s %s)" % ("true" if sc.get("rerun") else "false", "true" if sc.get("_async") else "false")))
@@ -346,7 +391,7 @@ def events_for(trace, children, key):
         hits[(i, label)] = hits.get((i, label), 0) + 1
         if label == "job.body_enter":
             pending_body[i] = True
-        inj = ch.get("inject")
+        inj = None if plain else ch.get("inject")
         if inj and inj[0] == label and inj[1] == hits[(i, label)]:
             ev.append((i, "AExc"))
             pending_body.pop(i, None)
@@ -359,13 +404,21 @@ def events_for(trace, children, key):
             ev.append((i, "APostHookRaise"))
     # a killed process dies right after its last recorded label (later lines of other processes come after)
     inserts = []
+    done_idx = set()
     for pid, ch in children.items():
-        if ch.get("crashed"):
-            i = ch["idx"]
+        i = ch["idx"]
+        if i in done_idx:
+            continue
+        done_idx.add(i)
+        # the submitter itself was killed, or (cf worker) the pool process running this job was
+        killed_here = ch.get("killed_worker") and last_label.get(i) is not None and last_label.get(i) not in TERMINAL \
+            and last_label.get(i) == ch.get("kill_label")
+        if ch.get("crashed") or killed_here:
             pos = max([k for k, (j, _) in enumerate(ev) if j == i], default=-1) + 1
             extra = []
-            if last_label.get(i) in OPEN_LABELS and ch.get("crash_file_status") is not None:
-                extra.append((i, "(AProgress %d)" % {0: 0, 1: 2, 2: 4}[ch["crash_file_status"]]))
+            st = (ch.get("crash_status") or {}).get(key, ch.get("crash_file_status"))
+            if last_label.get(i) in OPEN_LABELS and st is not None:
+                extra.append((i, "(AProgress %d)" % {0: 0, 1: 2, 2: 4}[st]))
             extra.append((i, "ACrash"))
             inserts.append((pos, extra))
     for pos, extra in sorted(inserts, key=lambda t: -t[0]):
@@ -410,6 +463,7 @@ def run_scenario(sc, workroot=None):
     import tempfile
     t0 = time.time()
     wd = tempfile.mkdtemp(prefix="verif-cp-", dir=workroot)
+    all_children = []
     try:
         cache = os.path.join(wd, "cache")
         os.makedirs(cache)
@@ -431,6 +485,7 @@ def run_scenario(sc, workroot=None):
         timeout = sc.get("timeout", 90)
         if sc.get("pre"):
             c = Child(99, wd, cache, [dict(base)], [], os.path.join(wd, "trace_pre"))
+            all_children.append(c)
             if c.finish(timeout) != 0:
                 raise RuntimeError("preparatory run failed: " + (c.output or "")[-400:])
         children = {}
@@ -438,6 +493,7 @@ def run_scenario(sc, workroot=None):
         idx = 0
         hang = False
         runs_stage = []
+        runs_stage_by_x = []
         for st_no, stage in enumerate(sc["stages"]):
             chs = []
             gate_dir = os.path.join(wd, "gate%d" % st_no)
@@ -448,13 +504,17 @@ def run_scenario(sc, workroot=None):
                     s.update(sd)
                     s["hook_log"] = os.path.join(wd, "hooks%d" % idx)
                     s["_body_raises"] = bool(s.get("_body_raises", s.get("fail")))
+                    s["_async"] = s.get("worker") == "cf" and s.get("task") == "workflow"
+                    s["_infer_body_raise"] = s.get("task") == "workflow"
                     if s.get("hook_chdir"):
                         s["hook_chdir"] = elsewhere
                     subs.append(s)
                 rules = list(cd.get("rules", []))
                 if stage.get("gate"):
                     rules.append(gate_rule(gate_dir, idx, timeout=timeout))
-                chs.append((Child(idx, wd, cache, subs, rules, trace), subs, cd))
+                chs.append((Child(idx, wd, cache, subs, rules, trace,
+                                  track=any(x.get("worker") == "cf" for x in subs)), subs, cd))
+                all_children.append(chs[-1][0])
                 idx += 1
             deadline = time.time() + timeout
             if stage.get("gate"):
@@ -504,20 +564,29 @@ def run_scenario(sc, workroot=None):
                 rep = c.report()
                 hl = subs[0]["hook_log"]
                 hooks = open(hl).read().split() if os.path.exists(hl) else []
+                kill = [r for r in cd.get("rules", []) if r.get("action") in ("exit", "truncate")]
                 children[c.pid] = dict(idx=c.idx, subs=subs, inject=tuple(cd["inject"]) if cd.get("inject") else None,
-                                       crashed=(rc == 137), rc=rc)
+                                       crashed=(rc == 137), rc=rc, killed_worker=bool(kill) and rc != 137,
+                                       kill_label=kill[0]["label"] if kill else None, pids=[c.pid] + sorted(c.kids))
+                for kp in c.kids:
+                    children[kp] = children[c.pid]
                 infos.append(dict(idx=c.idx, rc=rc, report=rep, hooks=hooks, pid=c.pid,
                                   tail=(c.output or "")[-400:] if rc not in (0, 137) else ""))
-            runs_stage.append(len(open(side).read().split()))
-            # what a killed child left in the file it had open, looked at before anybody repairs it
+            lines_now = open(side).read().splitlines()
+            runs_stage.append(len(lines_now))
+            bx = {}
+            for ln in lines_now:
+                bx[ln.split()[-1]] = bx.get(ln.split()[-1], 0) + 1
+            runs_stage_by_x.append(bx)
+            # what a killed process left in the file it had open, looked at before anybody repairs it
             tr_now = resolve_keys(read_trace(trace))
-            k_now = next((k for pid, _, l, k in tr_now if l == "job.lock_acquired" and pid in children), None)
             for c, subs, cd in chs:
                 ch = children[c.pid]
-                if ch["crashed"] and k_now:
-                    mine = [(l, k) for p, _, l, k in tr_now if p == c.pid and k in ("-", k_now)]
-                    if mine and mine[-1][0] in OPEN_LABELS:
-                        ch["crash_file_status"] = file_status(os.path.join(cache, k_now, OPEN_LABELS[mine[-1][0]]))
+                if ch["crashed"] or ch["killed_worker"]:
+                    for kk in {k for p, _, l, k in tr_now if p in ch["pids"] and k != "-"}:
+                        mine = [l for p, _, l, k in tr_now if p in ch["pids"] and k == kk]
+                        if mine and mine[-1] in OPEN_LABELS:
+                            ch.setdefault("crash_status", {})[kk] = file_status(os.path.join(cache, kk, OPEN_LABELS[mine[-1]]))
         tr = resolve_keys(read_trace(trace))
         main_keys = [k for pid, _, l, k in tr if l == "job.lock_acquired" and pid in children]
         keys = []
@@ -534,14 +603,33 @@ def run_scenario(sc, workroot=None):
             key = dirs[0] if dirs else "-"
         g = observe_cache(cache, key) if key != "-" else None
         ev = events_for(tr, children, key)
-        runs_all = open(side).read().split()
+        node_keys = []
+        for pid, _, l, k in tr:
+            if pid in children and k not in ("-", key) and k not in node_keys:
+                node_keys.append(k)
+        node_events = {k: events_for(tr, children, k, plain=True) for k in node_keys}
+        # info files left behind by node jobs (each job writes <uid>_info.json of its own)
+        node_infos_left = 0
+        for k in node_keys:
+            per = {}
+            for pid, _, l, kk in tr:
+                if kk == k and pid in children:
+                    i = children[pid]["idx"]
+                    per[i] = per.get(i, 0) + (l == "job.info_written") - (l == "job.info_removed")
+            node_infos_left += sum(v for v in per.values() if v > 0)
+        runs_all = open(side).read().splitlines()
+        by_x = {}
+        for ln in runs_all:
+            parts = ln.split()
+            by_x[parts[-1]] = by_x.get(parts[-1], 0) + 1
         labels = {}
         for pid, _, l, k in tr:
             if pid in children and k in ("-", key):
                 labels.setdefault(children[pid]["idx"], []).append(l)
         res = dict(name=sc.get("name", ""), key=key, keys=keys, events=ev, cache=g, children=infos, hang=hang,
                    runs=len(runs_all), labels=labels, wall=round(time.time() - t0, 2),
-                   n_trace=len(tr), runs_stage=runs_stage)
+                   n_trace=len(tr), runs_stage=runs_stage, node_events=node_events, runs_by_x=by_x,
+                   runs_stage_by_x=runs_stage_by_x, node_infos_left=node_infos_left)
         if sc.get("collect_files") and key != "-":
             res["files"] = {}
             for fn in ("_result.pklz", "_job.pklz", "_error.pklz"):
@@ -551,6 +639,8 @@ def run_scenario(sc, workroot=None):
                         res["files"][fn] = f.read()
         return res
     finally:
+        for c in all_children:
+            c.kill_tree()
         shutil.rmtree(wd, ignore_errors=True)
 
 
@@ -558,9 +648,12 @@ def case_literal(sc, res, bv):
     """Gallina literal of type Model.CacheProto.trace_case for a finished scenario."""
     g = res["cache"] or dict(lock=False, slock=False, dir=False, job=0, res=0, err=0, infos=0)
     runs = res["runs"]        # the preparatory run, if any, left one line as well (= the model's initial runs := 1)
+    if sc.get("task", {}).get("task") == "workflow":
+        # the body of a workflow is the expansion of its graph: it leaves no line of its own
+        runs = sum(1 for _, a in res["events"] if a in ("ABodyLeft", "ABodyRaise")) + (1 if sc.get("pre") else 0)
     gl = "(%s, %s, %s, %d, %d, %d, %d, %d)" % (
         "true" if g["lock"] else "false", "true" if g["slock"] else "false", "true" if g["dir"] else "false",
-        g["job"], g["res"], g["err"], runs, g["infos"])
+        g["job"], g["res"], g["err"], runs, max(0, g["infos"] - res.get("node_infos_left", 0)))
     pl = []
     for ch in res["children"]:
         rep = ch["report"]
